@@ -74,7 +74,7 @@ func c13HTTPBase(c byte) byte {
 	return c
 }
 
-func c13HTTPCase(interval time.Duration, threshold, maxRetries int, pattern string) (obs c13Obs, bad, sig string) {
+func c13HTTPCase(interval time.Duration, threshold, maxRetries int, pattern string, pending bool) (obs c13Obs, bad, sig string) {
 	fail := func(s, format string, a ...any) {
 		if bad == "" {
 			sig, bad = "c13 http "+s, fmt.Sprintf(format, a...)
@@ -119,6 +119,8 @@ func c13HTTPCase(interval time.Duration, threshold, maxRetries int, pattern stri
 			return mk(req, 204, "", "", "eof"), nil
 		case m.Method == "initialize":
 			return mk(req, 200, "application/json", `{"jsonrpc":"2.0","id":`+string(m.ID)+`,"result":{"protocolVersion":"2025-06-18","capabilities":{},"serverInfo":{"name":"peer","version":"1"}}}`, "eof"), nil
+		case m.Method == "tools/list":
+			return mk(req, 200, "text/event-stream", "", "hang"), nil // the outstanding user call: never answered
 		case m.Method == "ping":
 			act := byte('A')
 			if !horizonReached {
@@ -167,6 +169,15 @@ func c13HTTPCase(interval time.Duration, threshold, maxRetries int, pattern stri
 		cs.Wait()
 		obs.closedAt = time.Since(t0)
 	}()
+	pendingDone := time.Duration(-1)
+	pctx, cancelPending := context.WithCancel(ctx)
+	defer cancelPending()
+	if pending {
+		go func() {
+			cs.ListTools(pctx, nil)
+			pendingDone = time.Since(t0)
+		}()
+	}
 	horizon := time.Duration(len(pattern)+3) * interval
 	time.Sleep(horizon - time.Since(t0))
 	synctest.Wait()
@@ -182,6 +193,11 @@ func c13HTTPCase(interval time.Duration, threshold, maxRetries int, pattern stri
 	}, func(s, format string, a ...any) {
 		fail(s, "HTTP fates %q: "+format, append([]any{pattern}, a...)...)
 	})
+	if pending && obs.closedAt >= 0 && pendingDone < 0 {
+		fail("pending-call-outlives-session", "pattern %q: the session was closed at %v but the call that was outstanding is still blocked", pattern, obs.closedAt)
+	}
+	cancelPending() // Close is graceful: it would wait for the outstanding call of a connected peer
+	synctest.Wait()
 	cs.Close()
 	synctest.Wait()
 	if obs.closedAt < 0 {
@@ -213,13 +229,17 @@ func TestVerifC13HTTP(t *testing.T) {
 		}
 	}
 	const interval = 2 * time.Second
-	for _, maxRetries := range []int{0, -1} {
+	for _, cfg := range []struct {
+		maxRetries int
+		pending    bool
+	}{{0, false}, {-1, false}, {0, true}} {
+		maxRetries, pending := cfg.maxRetries, cfg.pending
 		syms := c13HTTPSymbols
 		if maxRetries < 0 {
 			syms = strings.ReplaceAll(syms, "I", "") // with retries disabled a stream that needs resuming ends the connection by design
 		}
 		for th := env.Pick(1, 0); th <= 3; th++ {
-			gen("", min(th+env.Pick(1, 2), env.Pick(4, 5)), syms, func(p string) {
+			gen("", min(th+env.Pick(1, 2), env.Pick(4, 5)-btoi(pending)), syms, func(p string) {
 				idx, mine := cases.Next()
 				if !mine {
 					return
@@ -232,10 +252,10 @@ func TestVerifC13HTTP(t *testing.T) {
 							bad, sig = fmt.Sprintf("pattern %q: panic / bubble failure: %v", p, r), "c13 http panic-or-leak"
 						}
 					}()
-					synctest.Test(t, func(t *testing.T) { obs, bad, sig = c13HTTPCase(interval, th, maxRetries, p) })
+					synctest.Test(t, func(t *testing.T) { obs, bad, sig = c13HTTPCase(interval, th, maxRetries, p, pending) })
 				}()
 				desc := func() string {
-					return fmt.Sprintf("streamable-http client MaxRetries=%d interval=%v threshold=%d fates=%q", maxRetries, interval, th, p)
+					return fmt.Sprintf("streamable-http client MaxRetries=%d interval=%v threshold=%d fates=%q outstanding-call=%v", maxRetries, interval, th, p, pending)
 				}
 				if bad != "" {
 					cases.Violate(idx, sig, bad+" ["+desc()+"]", len(p)+1)
@@ -250,4 +270,11 @@ func TestVerifC13HTTP(t *testing.T) {
 		}
 	}
 	env.Finish(res)
+}
+
+func btoi(b bool) int {
+	if b {
+		return 1
+	}
+	return 0
 }
